@@ -76,6 +76,12 @@ func findSite(a *Analysis, prefix *Term) *Site {
 func runC06(cx *CheckCtx) {
 	w := cx.W
 	checkLoaders(cx, nmPkg)
+	// "succeeds iff it is Alphabet-witnessed": the T-witness gates of the tick and of the subscription
+	for _, name := range []string{"NewEpoch", "SubscribeForNewEpoch"} {
+		if m := cx.method("netmap", name); m != nil {
+			gateRule(cx, m)
+		}
+	}
 	c := cx.contract("netmap")
 	if c == nil {
 		return
